@@ -6,7 +6,7 @@
 (* any lease time; any bound on reservations), and that it implies the     *)
 (* address / reservation part of C10:  OneHolderPerAddress,                *)
 (* KeyedByAddress, OneLeasePerClient, DynamicInsidePool, HostsUnique,      *)
-(* RemBounded, DiskEqualsMemoryEachOnce.  (The invariants that quantify    *)
+(* RemBounded, DiskEqualsMemoryEachOnce, RemoveKeepsHeldDynamic.  (The invariants that quantify    *)
 (* over outcome sets -- NoReuseBeforeAnnouncedExpiry,                      *)
 (* ReservedClientGetsReservation, StaticNotGivenAway, OfferWhenFree -- are *)
 (* discharged by Apalache only.)                                           *)
@@ -20,20 +20,21 @@ EXTENDS Dhcp4Ind, TLAPS
 ASSUME ConstAssump == ConstOK
 
 LeaseOK(l) == /\ IsLease(l)
-              /\ l.mac \in Macs
+              /\ l.mac \in Macs \cup {Blk}
+              /\ (l.mac = Blk => ~l.st /\ l.rem = 0 /\ l.host = "")
               /\ l.ip \in Subnet /\ l.ip # GW
               /\ (~l.st => l.ip \in Pool)
               /\ l.rem \in 0..LeaseT /\ (l.st => l.rem = 0)
 
 Good(S) == /\ \A l \in S : LeaseOK(l)
            /\ \A l1, l2 \in S : l1.ip = l2.ip => l1 = l2
-           /\ \A l1, l2 \in S : l1.mac = l2.mac => l1 = l2
+           /\ \A l1, l2 \in S : l1.mac = l2.mac /\ l1.mac # Blk => l1 = l2
            /\ \A l1, l2 \in S : l1.host # "" /\ l1.host = l2.host => l1 = l2
 
 LEMMA GoodIsInv == IndInv <=> (Good(ls) /\ disk = ls)
   BY DEF IndInv, Good, LeaseOK, TypeOK, KeyedByAddress, OneLeasePerClient, HostsUnique
 
-LEMMA LeaseTNat == LeaseT \in Nat /\ GW \notin Pool
+LEMMA LeaseTNat == LeaseT \in Nat /\ GW \notin Pool /\ Blk \notin Macs
   BY ConstAssump DEF ConstOK
 
 \* ---------------------------------------------------------- generic lemmas
@@ -42,12 +43,12 @@ LEMMA Sub == ASSUME NEW S, NEW T, Good(S), T \subseteq S PROVE Good(T)
 
 LEMMA AddOne ==
     ASSUME NEW T, NEW x, Good(T), LeaseOK(x),
-           \A l \in T : l.ip # x.ip /\ l.mac # x.mac,
+           \A l \in T : l.ip # x.ip /\ (l.mac # x.mac \/ x.mac = Blk),
            x.host = "" \/ \A l \in T : l.host # x.host
     PROVE  Good(T \cup {x})
   <1>1 \A l \in T \cup {x} : LeaseOK(l) BY DEF Good
   <1>2 \A l1, l2 \in T \cup {x} : l1.ip = l2.ip => l1 = l2 BY DEF Good
-  <1>3 \A l1, l2 \in T \cup {x} : l1.mac = l2.mac => l1 = l2 BY DEF Good
+  <1>3 \A l1, l2 \in T \cup {x} : l1.mac = l2.mac /\ l1.mac # Blk => l1 = l2 BY DEF Good
   <1>4 \A l1, l2 \in T \cup {x} : l1.host # "" /\ l1.host = l2.host => l1 = l2 BY DEF Good
   <1> QED BY <1>1, <1>2, <1>3, <1>4 DEF Good
 
@@ -68,12 +69,12 @@ LEMMA MapKeep ==
     <2>3 l1.ip = l2.ip BY <2>1, <2>2
     <2>4 l1 = l2 BY <2>3 DEF Good
     <2> QED BY <2>1, <2>2, <2>4
-  <1>3 \A y1, y2 \in T : y1.mac = y2.mac => y1 = y2
+  <1>3 \A y1, y2 \in T : y1.mac = y2.mac /\ y1.mac # Blk => y1 = y2
     <2> TAKE y1, y2 \in T
-    <2> HAVE y1.mac = y2.mac
+    <2> HAVE y1.mac = y2.mac /\ y1.mac # Blk
     <2>1 PICK l1 \in S : y1 = f(l1) OBVIOUS
     <2>2 PICK l2 \in S : y2 = f(l2) OBVIOUS
-    <2>3 l1.mac = l2.mac BY <2>1, <2>2
+    <2>3 l1.mac = l2.mac /\ l1.mac # Blk BY <2>1, <2>2
     <2>4 l1 = l2 BY <2>3 DEF Good
     <2> QED BY <2>1, <2>2, <2>4
   <1>4 \A y1, y2 \in T : y1.host # "" /\ y1.host = y2.host => y1 = y2
@@ -176,9 +177,9 @@ LEMMA RequestGood ==
       <3>2 y.mac = m /\ y.ip = a /\ y.st = FALSE /\ y.host = x /\ y.rem \in 0..LeaseT /\ IsLease(y)
         BY LeaseFields
       <3>3 LeaseOK(l) BY <2>1 DEF Good
-      <3>4 LeaseOK(y) BY <3>2, <3>3, <2>1, <2>3 DEF LeaseOK
+      <3>4 LeaseOK(y) BY <3>2, <3>3, <2>1, <2>3, LeaseTNat DEF LeaseOK
       <3>5 Good(S \ {l}) BY Sub
-      <3>6 \A z \in S \ {l} : z.ip # y.ip /\ z.mac # y.mac BY <3>2, <2>1 DEF Good
+      <3>6 \A z \in S \ {l} : z.ip # y.ip /\ z.mac # y.mac BY <3>2, <2>1, LeaseTNat DEF Good
       <3>7 x = "" \/ \A z \in S \ {l} : z.host # x BY DEF HostChoices
       <3> HIDE DEF y, l, mine
       <3> QED BY <3>1, <3>2, <3>4, <3>5, <3>6, <3>7, AddOne DEF Outc, y
@@ -196,7 +197,7 @@ LEMMA DeclineGood ==
                keep == {""} \cup ({l.host} \ {GenName(a)})
     <2>1 l \in S /\ l.mac = m BY <1>2 DEF Of
     <2>2 Good(S1) BY Sub
-    <2>3 Of(S1, m) = {} BY <2>1 DEF Of, Good
+    <2>3 Of(S1, m) = {} BY <2>1, LeaseTNat DEF Of, Good
     <2>4 \/ o = Outc(S1, AnyR)
          \/ \E T \in Allocs(S1, m, TRUE, keep, TRUE) : o = Outc(T, AnyR)
          \/ \E T \in Allocs(S1, m, FALSE, keep, TRUE) : o = Outc(T, AnyR)
@@ -249,7 +250,7 @@ LEMMA ExpireGood ==
     BY <1>3b, <1>2 DEF IsLease, LeaseOK
   <1>4 LeaseOK(y) BY <1>2, <1>3, LeaseTNat DEF LeaseOK
   <1>5 Good(S \ {l}) BY Sub
-  <1>6 \A z \in S \ {l} : z.ip # y.ip /\ z.mac # y.mac BY <1>3 DEF Good
+  <1>6 \A z \in S \ {l} : z.ip # y.ip /\ (z.mac # y.mac \/ y.mac = Blk) BY <1>3 DEF Good
   <1>7 y.host = "" \/ \A z \in S \ {l} : z.host # y.host BY <1>3 DEF Good
   <1> HIDE DEF y
   <1> QED BY <1>1, <1>4, <1>5, <1>6, <1>7, AddOne DEF Outc, y
@@ -282,6 +283,62 @@ LEMMA UnnameGood ==
   <1>3 Good({f(l) : l \in L}) BY <1>2b, MapKeep
   <1> QED BY <1>1, <1>2, <1>3
 
+\* The name h goes to a new reservation: the lease that had it is renamed.
+LEMMA RenamesGood ==
+    ASSUME NEW L, NEW h, Good(L), NEW T \in Renames(L, h)
+    PROVE  /\ Good(T)
+           /\ \A z \in T : h = "" \/ z.host # h
+           /\ \A z \in T : \E l \in L : z.ip = l.ip /\ z.mac = l.mac
+  <1>1 CASE h = "" \/ \A l \in L : l.host # h
+    <2>1 T = L BY <1>1 DEF Renames
+    <2> QED BY <2>1, <1>1
+  <1>2 CASE ~(h = "" \/ \A l \in L : l.host # h)
+    <2> DEFINE l == CHOOSE x \in L : x.host = h
+               rest == L \ {l}
+    <2>1 l \in L /\ l.host = h /\ h # "" BY <1>2
+    <2>2 PICK n : /\ (n = "" \/ (n # h /\ \A o \in rest : o.host # n))
+                  /\ T = rest \cup {[l EXCEPT !.host = n]}
+      BY <1>2 DEF Renames
+    <2> DEFINE y == [l EXCEPT !.host = n]
+    <2>3 LeaseOK(l) BY <2>1 DEF Good
+    <2>4 l = [mac |-> l.mac, ip |-> l.ip, st |-> l.st, rem |-> l.rem, host |-> l.host]
+      BY <2>3 DEF LeaseOK, IsLease
+    <2>5 y = [mac |-> l.mac, ip |-> l.ip, st |-> l.st, rem |-> l.rem, host |-> n] BY <2>4
+    <2>6 l.mac # Blk BY <2>3, <2>1 DEF LeaseOK
+    <2>7 LeaseOK(y) BY <2>3, <2>5, <2>6 DEF LeaseOK, IsLease
+    <2>8 Good(rest) BY Sub
+    <2>9 \A z \in rest : z.ip # y.ip /\ (z.mac # y.mac \/ y.mac = Blk) BY <2>5, <2>1, <2>6 DEF Good
+    <2>10 y.host = "" \/ \A z \in rest : z.host # y.host BY <2>2, <2>5
+    <2>11 \A z \in rest : z.host # h BY <2>1 DEF Good
+    <2>12 y.ip = l.ip /\ y.mac = l.mac /\ y.host = n BY <2>5
+    <2> HIDE DEF y, l, rest
+    <2>13 Good(rest \cup {y}) BY <2>7, <2>8, <2>9, <2>10, AddOne
+    <2>14 T = rest \cup {y} BY <2>2 DEF y
+    <2> QED BY <2>1, <2>2, <2>11, <2>12, <2>13, <2>14 DEF rest
+  <1> QED BY <1>1, <1>2
+
+\* The end of an address conflict: the entry becomes an entry of nobody.
+LEMMA BlockEndGood ==
+    ASSUME NEW S, NEW a, Good(S), NEW o \in BlockEndOut(S, a)
+    PROVE  Good(o.dst)
+  <1>1 PICK l \in S : ~l.st /\ l.rem = 0 /\ l.mac # Blk
+                       /\ o = Outc((S \ {l}) \cup {[l EXCEPT !.mac = Blk, !.host = ""]}, None)
+    BY DEF BlockEndOut, On
+  <1> DEFINE y == [l EXCEPT !.mac = Blk, !.host = ""]
+  <1>2 LeaseOK(l) BY DEF Good
+  <1>3a l = [mac |-> l.mac, ip |-> l.ip, st |-> l.st, rem |-> l.rem, host |-> l.host]
+    BY <1>2 DEF LeaseOK, IsLease
+  <1>3b y = [mac |-> Blk, ip |-> l.ip, st |-> l.st, rem |-> l.rem, host |-> ""]
+    BY <1>3a
+  <1>3 y.mac = Blk /\ y.ip = l.ip /\ y.st = l.st /\ y.host = "" /\ y.rem = l.rem /\ IsLease(y)
+    BY <1>3b, <1>2 DEF IsLease, LeaseOK
+  <1>4 LeaseOK(y) BY <1>1, <1>2, <1>3 DEF LeaseOK
+  <1>5 Good(S \ {l}) BY Sub
+  <1>6 \A z \in S \ {l} : z.ip # y.ip /\ (z.mac # y.mac \/ y.mac = Blk) BY <1>3 DEF Good
+  <1>7 y.host = "" \/ \A z \in S \ {l} : z.host # y.host BY <1>3
+  <1> HIDE DEF y
+  <1> QED BY <1>1, <1>4, <1>5, <1>6, <1>7, AddOne DEF Outc, y
+
 LEMMA AddStaticGood ==
     ASSUME NEW S, NEW m \in Macs, NEW a, NEW h, Good(S), NEW o \in AddStaticOut(S, m, a, h)
     PROVE  Good(o.dst)
@@ -291,21 +348,22 @@ LEMMA AddStaticGood ==
              x     == Lease(m, a, TRUE, TRUE, h)
   <1>1 CASE o.dst = S BY <1>1
   <1>2 CASE o.dst # S
-    <2>1 ~hard /\ o = Outc(Unname(S \ evict, h) \cup {x}, Ok)
+    <2>1 ~hard /\ \E TT \in Renames(S \ evict, h) : o = Outc(TT \cup {x}, Ok)
       BY <1>2 DEF AddStaticOut, Outc
+    <2>1a PICK TT \in Renames(S \ evict, h) : o = Outc(TT \cup {x}, Ok) BY <2>1
     <2>2 x.mac = m /\ x.ip = a /\ x.st = TRUE /\ x.host = h /\ x.rem = 0 /\ x.rem \in 0..LeaseT /\ IsLease(x)
       BY LeaseFields
-    <2>3 LeaseOK(x) BY <2>1, <2>2 DEF LeaseOK
+    <2>3 LeaseOK(x) BY <2>1, <2>2, LeaseTNat DEF LeaseOK
     <2>4 Good(S \ evict) BY Sub
     <2>5 \A l \in S \ evict : l.ip # a /\ l.mac # m BY <2>1 DEF Statics
-    <2>6 /\ Good(Unname(S \ evict, h))
-         /\ \A z \in Unname(S \ evict, h) : h = "" \/ z.host # h
-         /\ \A z \in Unname(S \ evict, h) : \E l \in S \ evict : z.ip = l.ip /\ z.mac = l.mac
-      BY <2>4, UnnameGood
-    <2>7 \A z \in Unname(S \ evict, h) : z.ip # x.ip /\ z.mac # x.mac BY <2>2, <2>5, <2>6
-    <2>8 x.host = "" \/ \A z \in Unname(S \ evict, h) : z.host # x.host BY <2>2, <2>6
+    <2>6 /\ Good(TT)
+         /\ \A z \in TT : h = "" \/ z.host # h
+         /\ \A z \in TT : \E l \in S \ evict : z.ip = l.ip /\ z.mac = l.mac
+      BY <2>4, RenamesGood
+    <2>7 \A z \in TT : z.ip # x.ip /\ (z.mac # x.mac \/ x.mac = Blk) BY <2>2, <2>5, <2>6
+    <2>8 x.host = "" \/ \A z \in TT : z.host # x.host BY <2>2, <2>6
     <2> HIDE DEF x, evict, hard
-    <2> QED BY <2>1, <2>3, <2>6, <2>7, <2>8, AddOne DEF Outc
+    <2> QED BY <2>1a, <2>3, <2>6, <2>7, <2>8, AddOne DEF Outc
   <1> QED BY <1>1, <1>2
 
 LEMMA UpdateStaticGood ==
@@ -320,28 +378,29 @@ LEMMA UpdateStaticGood ==
                evict  == {z \in others : ~z.st /\ z.ip = a}
                x      == Lease(m, a, TRUE, TRUE, h)
     <2>0 Of(S, m) # {} BY <1>2 DEF UpdateStaticOut, Outc
-    <2>1 ~hard /\ o = Outc(Unname(others \ evict, h) \cup {x}, Ok)
+    <2>1 ~hard /\ \E TT \in Renames(others \ evict, h) : o = Outc(TT \cup {x}, Ok)
       BY <1>2, <2>0 DEF UpdateStaticOut, Outc
+    <2>1a PICK TT \in Renames(others \ evict, h) : o = Outc(TT \cup {x}, Ok) BY <2>1
     <2>2 x.mac = m /\ x.ip = a /\ x.st = TRUE /\ x.host = h /\ x.rem = 0 /\ x.rem \in 0..LeaseT /\ IsLease(x)
       BY LeaseFields
-    <2>3 LeaseOK(x) BY <2>1, <2>2 DEF LeaseOK
+    <2>3 LeaseOK(x) BY <2>1, <2>2, LeaseTNat DEF LeaseOK
     <2>4 l \in S /\ l.mac = m BY <2>0 DEF Of
     <2>5 Good(others \ evict) BY Sub
-    <2>6 \A z \in others \ evict : z.ip # a /\ z.mac # m BY <2>1, <2>4 DEF Good
-    <2>7 /\ Good(Unname(others \ evict, h))
-         /\ \A z \in Unname(others \ evict, h) : h = "" \/ z.host # h
-         /\ \A z \in Unname(others \ evict, h) : \E y \in others \ evict : z.ip = y.ip /\ z.mac = y.mac
-      BY <2>5, UnnameGood
-    <2>8 \A z \in Unname(others \ evict, h) : z.ip # x.ip /\ z.mac # x.mac BY <2>2, <2>6, <2>7
-    <2>9 x.host = "" \/ \A z \in Unname(others \ evict, h) : z.host # x.host BY <2>2, <2>7
+    <2>6 \A z \in others \ evict : z.ip # a /\ z.mac # m BY <2>1, <2>4, LeaseTNat DEF Good
+    <2>7 /\ Good(TT)
+         /\ \A z \in TT : h = "" \/ z.host # h
+         /\ \A z \in TT : \E y \in others \ evict : z.ip = y.ip /\ z.mac = y.mac
+      BY <2>5, RenamesGood
+    <2>8 \A z \in TT : z.ip # x.ip /\ (z.mac # x.mac \/ x.mac = Blk) BY <2>2, <2>6, <2>7
+    <2>9 x.host = "" \/ \A z \in TT : z.host # x.host BY <2>2, <2>7
     <2> HIDE DEF x, evict, hard, others, l
-    <2> QED BY <2>1, <2>3, <2>7, <2>8, <2>9, AddOne DEF Outc
+    <2> QED BY <2>1a, <2>3, <2>7, <2>8, <2>9, AddOne DEF Outc
   <1> QED BY <1>1, <1>2
 
 LEMMA RemoveStaticGood ==
-    ASSUME NEW S, NEW m, NEW a, Good(S), NEW o \in RemoveStaticOut(S, m, a)
+    ASSUME NEW S, NEW m, NEW a, Good(S), NEW o \in RemoveStatic4Out(S, m, a)
     PROVE  Good(o.dst)
-  <1>1 o.dst \subseteq S BY DEF RemoveStaticOut, Outc
+  <1>1 o.dst \subseteq S BY DEF RemoveStatic4Out, RemoveStaticOut, Outc
   <1> QED BY <1>1, Sub
 
 \* ---------------------------------------------------------- the invariant
@@ -368,6 +427,8 @@ LEMMA NextInv == IndInv /\ [Next]_vars => IndInv'
     BY <1>0, <1>5, TickGood, TakeKeeps DEF Tick
   <1>6 ASSUME NEW a \in Pool, Expire(a) PROVE IndInv'
     BY <1>0, <1>6, ExpireGood, TakeKeeps DEF Expire
+  <1>6b ASSUME NEW a \in Pool, BlockEnd(a) PROVE IndInv'
+    BY <1>0, <1>6b, BlockEndGood, TakeKeeps DEF BlockEnd
   <1>7 ASSUME NEW m \in Macs, NEW a \in StatAddrs, NEW h \in StaticHosts, AddStatic(m, a, h) PROVE IndInv'
     BY <1>0, <1>7, AddStaticGood, TakeKeeps DEF AddStatic
   <1>8 ASSUME NEW m \in Macs, NEW a \in StatAddrs, NEW h \in StaticHosts, UpdateStatic(m, a, h) PROVE IndInv'
@@ -379,7 +440,7 @@ LEMMA NextInv == IndInv /\ [Next]_vars => IndInv'
     <2> QED BY <2>1, <1>0 DEF IndInv, TypeOK, KeyedByAddress, OneLeasePerClient, HostsUnique
   <1>11 CASE UNCHANGED vars
     BY <1>11 DEF vars, IndInv, TypeOK, KeyedByAddress, OneLeasePerClient, HostsUnique
-  <1> QED BY <1>1, <1>2, <1>3, <1>4, <1>5, <1>6, <1>7, <1>8, <1>9, <1>10, <1>11 DEF Next
+  <1> QED BY <1>1, <1>2, <1>3, <1>4, <1>5, <1>6, <1>6b, <1>7, <1>8, <1>9, <1>10, <1>11 DEF Next
 
 THEOREM Invariance == Spec => []IndInv
   BY InitInv, NextInv, PTL DEF Spec
@@ -388,6 +449,14 @@ THEOREM Invariance == Spec => []IndInv
 THEOREM IndInvSafe ==
     IndInv => /\ OneHolderPerAddress /\ KeyedByAddress /\ OneLeasePerClient
               /\ DynamicInsidePool /\ HostsUnique /\ RemBounded /\ DiskEqualsMemoryEachOnce
-  BY DEF IndInv, TypeOK, OneHolderPerAddress, KeyedByAddress, OneLeasePerClient, DynamicInsidePool,
-         HostsUnique, RemBounded, DiskEqualsMemoryEachOnce
+              /\ RemoveKeepsHeldDynamic
+  <1> SUFFICES ASSUME IndInv PROVE RemoveKeepsHeldDynamic
+    BY DEF IndInv, TypeOK, OneHolderPerAddress, KeyedByAddress, OneLeasePerClient, DynamicInsidePool,
+           HostsUnique, RemBounded, DiskEqualsMemoryEachOnce
+  <1> SUFFICES ASSUME NEW l \in ls, ~l.st /\ Held(l), NEW o \in RemoveStatic4Out(ls, l.mac, l.ip)
+               PROVE  l \in o.dst
+    BY DEF RemoveKeepsHeldDynamic
+  <1>1 l \in {x \in Of(ls, l.mac) : x.ip = l.ip /\ ~x.st /\ Held(x)} BY DEF Of
+  <1>2 o = Outc(ls, Err) BY <1>1 DEF RemoveStatic4Out
+  <1> QED BY <1>2 DEF Outc
 =============================================================================
